@@ -238,6 +238,21 @@ def r3_filters(ctx):
                 a = atom_of(t, ('eq', 1))
                 if a and a[0] == 'cmp' and a[1] == 'ne' and ('MAX' in (show_c(a[2]) + show_c(a[3])) or ('int', 18446744073709551615) in (a[2], a[3])):
                     ok = True
+        if not ok:
+            # split form: a rewrite pass over the bundle (dst := mapping[dst]) followed by `retain(|e| e.dst != usize::MAX)`
+            rw = [(b, i) for (b, i, st) in f.writes_to_field('dst') if any(x[0] in ('index',) or (x[0] == 'call' and 'index' in x[1]) for x in walk(f.expr_rvalue(st['r'], b, i)))]
+            keep = []
+            for c in f.calls():
+                if c.name.endswith(('Vec::retain', 'Vec::retain_mut')) and len(c.args) == 2:
+                    cl = peel(f.expr_operand(c.args[1], c.b, 'T'))
+                    g2 = P.fns.get(cl[1][len('closure:'):]) if cl[0] == 'agg' and str(cl[1]).startswith('closure:') else None
+                    for _, t in (ret_trees(g2) if g2 else []):
+                        a = atom_of(t, ('eq', 1))
+                        if a and a[0] == 'cmp' and a[1] == 'ne' and any(x[0] == 'field' and x[2] == 'dst' for x in walk(a[2]) ) and \
+                                ('MAX' in show_c(a[3]) or a[3] == ('int', 18446744073709551615)):
+                            keep.append(c)
+            ok = bool(rw) and bool(keep) and all(any(f.dominates(b, c.b) or c.b in f.reach_from(b) for (b, i) in rw) for c in keep) and \
+                all(set(f.loops_containing(c.b)) <= set(f.loops_containing(rw[0][0])) for c in keep)
         ctx.check(ok, 'remap-and-drop', 'remaining edges are remapped to the new node ids and edges to removed nodes are dropped', f.where())
         # ... on every returning path (no shortcut around the pass: it is also what drops edges into removed nodes)
         rs = [s for s in f.calls() if s.name.endswith(('Vec::retain_mut', 'Vec::retain')) and f.loops_containing(s.b)]
